@@ -14,6 +14,10 @@ CLAIMED = {
   text="Machine-checked proof for all pairs of integers: every translated operator (+,-,rsub,neg,abs,*int,//int,//,%,divmod, six comparisons, hash, bool, DateTime+-TimeDelta, DateTime-DateTime) equals the Z operation or OverflowError/ZeroDivisionError, divmod identity with floor semantics, (t+d)-t=d, trichotomy. Mixed datetime/hightime/float/Decimal operands are checked per run against an exact-rational bound evaluated in Coq (partial: bound only).",
   design="DESIGN.md §7 C03", tech="Coq proof over a translator-regenerated model + in-Coq correspondence",
   note=TB + "translator; harness; datetime/hightime/decimal arithmetic outside /repo assumed exact in their units."),
+ "C04": dict(
+  text="Machine-checked proof over all integers: bintime->datetime/hightime floor with error in [0, 1 unit), datetime->bintime floor (< 1 tick) and exact when representable, hightime->bintime nearest tick (<= 1/2 tick) and exact when representable, hightime->datetime floor, datetime->hightime->datetime and bintime->hightime->bintime identities, monotonicity of all four bintime conversions (incl. round-half-even), same-type identity, tz rules of the dispatch, TimeDelta(int) exact, TimeDelta(float|Decimal) nearest tick / exact / OverflowError iff out of range; built on integer pieces regenerated from _timedelta.py. Correspondence over all nine pairs (direct and through Timing.to_*), tz kinds, range edges, history-built sources; total_seconds (2 ulp) and precision_total_seconds round trip by exact-rational oracle in Coq (partial).",
+  design="DESIGN.md §7 C04", tech="Coq proof (lia/nia with Euclidean division) over regenerated pieces + hand model of the Decimal/float entry point; in-Coq correspondence",
+  note=TB + "translator; Model/Convert.v models Decimal (prec 64) and float entry points as exact rationals; datetime/hightime arithmetic outside /repo assumed exact."),
  "C14": dict(
   text="Machine-checked proof: for every integer tick count the regenerated TimeDelta fields lie in their normalized ranges and add up to the value floored to a yoctosecond; str() parts (regenerated, including the rounding carry) are within 1/2*10^-18 s; DateTime h/m/s/us/fs/ys fields, the calendar model (bijection days <-> valid dates for every day: complete 146097-day era sweep by vm_compute lifted by 400-year periodicity), all nine fields identify the floored instant, and building a DateTime from its fields returns the same ticks (uses the bt->ht->bt identity). Correspondence: fields/str/repr of objects reached through five construction paths, constructor from field tuples, datetime.date.fromordinal vs the calendar model.",
   design="DESIGN.md §7 C14", tech="Coq proof (lia + finite sweep lifted by periodicity) over translator-regenerated fields + in-Coq correspondence",
